@@ -13,10 +13,17 @@ non-empty combination of the given pairs on the odML objects themselves.
 Streams: match / fuzzy (one search per case, model-tied), reuse (histories over the caller's
 dictionary, finder and graph; every search model-tied), sets and creator (oracle only: special
 document sets; QueryCreator.get_query), bgp and subsets (model pieces against rdflib / the finder).
+In every stream the export itself is varied (round 3): how sub-classing is switched off (keyword,
+positional, the attribute set on an existing writer, a writer that exported with sub-classing before),
+a custom Section type table that has no meaning while sub-classing is off, Section types of the
+default table, one document instead of a list, the graph / a text / a file of the writer read back.
 """
 import itertools
+import os
 import re
+import shutil
 import sys
+import tempfile
 
 import framework as fw
 import c10
@@ -28,17 +35,45 @@ STR_ATTRS = {"Doc": ["author", "version"],
              "Sec": ["name", "type", "definition", "reference"],
              "Prop": ["name", "definition", "dtype", "unit", "reference", "value_origin"]}
 NAMES = ["a", "b", "ab"]
-TYPES = ["t1", "t2"]
+# strengthening round 3: Section types that are keys of the writer's default sub-class table
+# (odml/resources/section_subclasses.yaml). "Exported without Section sub-classing" only says something
+# for such Sections (and for types named in a caller's custom table): they are odml:Section like the rest.
+TABLE_TYPES = ["analysis", "stimulus/grating", "recording", "datacite/creator"]
+TYPES = ["t1", "t2", "t1", "t2"] + TABLE_TYPES
+# RDF class names a caller's custom table may give (no blanks: the writer refuses those); the names of the
+# three classes of the model among them
+CLASS_NAMES = ["Custom", "Grating", "Section", "Property", "Document", u"Klasseä", "A1"]
+# how the writer comes to export without sub-classing: constructor keyword / positional arguments, the
+# public attribute set on a writer that was constructed with sub-classing, the same after that writer has
+# already exported once with sub-classing, a writer without sub-classing that was switched on in between
+WRITER_HOWS = ["kw", "kw", "pos", "toggle", "toggle", "used", "flip"]
 TEXTS = ["d1", "x y", "a\\b", "it's", u"é", "100%", "a\\qb", "tab\tx", "-", "D. N. Adams", "a;b", "[x]", "?s", "{y}"]
 # strengthening round 2: line breaks of every flavour, texts that differ from a name only by case or by
 # surrounding blanks, the text of Python's None, a multi-digit number, a character outside the BMP
 TEXTS += ["line\nbreak", "cr\rx", u"ls\u2028x", u"nel\x85x", "None", "A", "T1", " a", "b ", "10",
           u"\U0001F600 x", "a  b"]
+# strengthening round 3: characters that mean something in SPARQL / turtle text outside a string (comment,
+# language tag, datatype, IRI, variable, prefixed name), a backslash at the very end and before a letter
+# that makes an escape, quotes of the other kinds, control characters with and without a SPARQL escape,
+# the ends of Latin-1 / the BMP, a zero-width character, a combining mark, a long text
+TEXTS += ["a#b", "x@en", "1^^xsd:int", "<u>", "$x", "odml:Section", "a\\", "\\n", "'''", "`",
+          "ff\x0cx", "bs\x08x", "vt\x0bx", "del\x7fx", u"\u00ffz", u"\u0100z", u"\uffffz", u"\u200bz",
+          u"e\u0301", "long " + "x" * 300]
+# Values that contain a code point escape of SPARQL (backslash, u or U, four or eight hex digits): the
+# query text is run through the escape expansion before it is parsed, whatever the string escaping did
+# (open finding codepoint_escape_in_value). Oracle-only streams (sets, creator) only: the Lean model does
+# not render query text.
+ESCAPE_TEXTS = ["\\u0041", "x\\U0001F600", "\\u005cn"]
+ESCAPE_RE = re.compile(r"\\[uU][0-9A-Fa-f]{4}")
 UNITS = ["mV", "s"]
+ORIGINS = ["f.xml", "my file.odml"]
 LONG_WORDS = {"doc": "document", "sec": "section", "prop": "property"}
 SHAPES = ["tuples", "tuples", "lists", "tuple_outer"]
 VIAS = ["graph", "graph", "graph", "turtle", "xml", "n3", "twice"]
-GPASS = ["kw", "kw", "ctor", "pos"]
+# round 3: the other ways out of the writer: write_file (turtle / RDF-XML / n-triples file read back),
+# str(writer), further text formats
+VIAS += ["file", "file_xml", "file_nt", "str", "nt", "json-ld"]
+GPASS = ["kw", "kw", "ctor", "pos", "nomode"]      # nomode (round 3): `mode` left to its default (fuzzy searches)
 
 
 # ----------------------------------------------------------------------------- helpers
@@ -61,8 +96,43 @@ def gen_docs(rng):
             secs.append(gen_sec(rng, NAMES[si], subs))
         docs.append({"author": pick(rng, ["me", "D. N. Adams", "a\\b"]), "version": pick(rng, ["1", "v2"]),
                      "date": pick(rng, ["2020-01-02"], 0.3), "repository": pick(rng, ["http://x.org/t.xml"], 0.15),
-                     "origin": None, "secs": secs})
+                     # round 3: now and then a document that came from a file (the export then says so in
+                     # a hasFileName triple the searches do not ask about)
+                     "origin": pick(rng, ORIGINS, 0.15), "secs": secs})
     return docs
+
+
+def types_of(specs):
+    out = set()
+
+    def sec(s):
+        if s.get("type"):
+            out.add(s["type"])
+        for c in s["subs"]:
+            sec(c)
+    for d in specs:
+        for s in d["secs"]:
+            sec(s)
+    return sorted(out)
+
+
+def gen_writer(rng, specs, force_custom=False):
+    """How the documents are exported "without Section sub-classing" (none of it changes what has to be
+    found): the way the switch is set, a custom Section type -> RDF class table (for types of the documents,
+    for other types, overriding default entries, empty) that has no meaning while the switch is off, a single
+    document handed over as such, another writer that exports the documents with sub-classing before."""
+    custom = None
+    r = 0.0 if force_custom else rng.random()
+    if r < 0.5:
+        types = types_of(specs)
+        keys = rng.sample(types, min(len(types), rng.choice([1, 1, 2])))
+        if rng.random() < 0.3 or not keys:
+            keys.append(rng.choice(TABLE_TYPES + ["other/type", "t1"]))
+        custom = [[k, rng.choice(CLASS_NAMES)] for k in sorted(set(keys))]
+    elif r < 0.6:
+        custom = []
+    return {"how": rng.choice(WRITER_HOWS), "custom": custom, "single": rng.random() < 0.3,
+            "pre": rng.random() < 0.15}
 
 
 def gen_sec(rng, name, subs):
@@ -188,10 +258,15 @@ def shape_params(params, mode, opts=None):
             out[k] = tuple(items) if shape == "tuple_outer" else items
         else:
             out[k] = tuple(v) if shape == "tuple_outer" else list(v)
+    if opts.get("empty_kinds"):
+        # a kind that is not asked about may be there with nothing in it
+        for k in KEYS:
+            if k not in out:
+                out[k] = () if shape == "tuple_outer" else []
     return out
 
 
-def gen_opts(rng):
+def gen_opts(rng, specs=()):
     """dimensions of one search that do not change what has to be found"""
     korder = KEYS + ["Search"]
     rng.shuffle(korder)
@@ -199,11 +274,13 @@ def gen_opts(rng):
     rng.shuffle(sorder)
     return {"shape": rng.choice(SHAPES), "korder": korder, "sorder": sorder,
             "words": rng.choice(["short", "short", "long"]), "via": rng.choice(VIAS),
-            "gpass": rng.choice(GPASS), "ints": rng.random() < 0.5}
+            "gpass": rng.choice(GPASS), "ints": rng.random() < 0.5,
+            # round 3: the writer's options, keys of kinds that are not asked about present with no entry
+            "writer": gen_writer(rng, specs), "empty_kinds": rng.random() < 0.2}
 
 
 def xml_safe(specs):
-    """XML 1.0 cannot carry most control characters and normalises line ends: only texts without them go
+    """XML 1.0 cannot carry most control characters nor U+FFFE/U+FFFF and normalises line ends: only texts without them go
     through the RDF/XML file form (a limitation of the file format, not of the search)"""
     def texts(x):
         if isinstance(x, str):
@@ -216,7 +293,7 @@ def xml_safe(specs):
             for v in x:
                 for t in texts(v):
                     yield t
-    return not any(re.search(u"[\x00-\x1f\x7f-\x9f\u2028\u2029]", t) for t in texts(specs))
+    return not any(re.search(u"[\x00-\x1f\x7f-\x9f\u2028\u2029\ufffe\uffff]", t) for t in texts(specs))
 
 
 def string_safe(pairs):
@@ -285,7 +362,13 @@ class C20(fw.Check):
             "constructor. Histories (reuse): the caller's dictionary, its inner collections, the finder and the "
             "graph used for several searches, after refused calls too. Oracle-only: special document sets (none, "
             "one twice, keep_id clone, long chains, many, unnamed objects, linked Sections, numbers as names) "
-            "and QueryCreator.get_query from dictionary / string / a parser used again. Non-trivial = at least "
+            "and QueryCreator.get_query from dictionary / string / a parser used again. The export itself (every "
+            "stream): sub-classing switched off by keyword / positionally / by the attribute of an existing "
+            "writer (also after it exported with sub-classing), custom Section type tables, Section types of the "
+            "default table, one document instead of a list, an earlier sub-classing export of the same documents, "
+            "write_file / str(writer) / nt / json-ld read back; oracle-only sets: Sections typed from the tables, "
+            "documents edited between two conversions of one writer, documents loaded from files, ten and more "
+            "children, all dtypes, values with SPARQL code point escapes. Non-trivial = at least "
             "one combination with a hit; distinct = distinct canonical JSON of the case.")
     quick_n = 110
     case_timeout = 90
@@ -307,7 +390,7 @@ class C20(fw.Check):
                         _k, a, v = rng.choice(mine)
                     else:
                         a = rng.choice(STR_ATTRS[key])
-                        v = rng.choice(NAMES + TYPES + TEXTS + UNITS + [""])      # "": no object carries it
+                        v = rng.choice(NAMES + TYPES + TEXTS + UNITS + ORIGINS + [""])      # "": no object carries it
                     pairs.append({"k": key, "a": a, "v": v, "vs": []})
         if risky:
             r = rng.choice(["uncertainty", "date", "id", "value", "repository", "sections",
@@ -395,7 +478,9 @@ class C20(fw.Check):
             opts = gen_opts(rng)
             case = {"stream": "reuse", "sets": sets,
                     "opts": {"shape": opts["shape"], "korder": opts["korder"], "sorder": opts["sorder"],
-                             "words": opts["words"]}}
+                             "words": opts["words"], "empty_kinds": opts["empty_kinds"]},
+                    # round 3: every document set has its own writer, each with its own options
+                    "writers": [gen_writer(rng, specs) for specs in sets]}
             if i % 2 == 0:
                 case["mode"] = "fuzzy"
                 case["attrs"], case["search"] = self.gen_fuzzy(rng, both, limit=2)
@@ -407,7 +492,9 @@ class C20(fw.Check):
                 steps.append({"g": rng.randrange(len(sets)),
                               "finder": rng.choice(["new", "new", "same", "same", "ctor"]),
                               "params": rng.choice(["same", "same", "same", "inner", "copy", "str"]),
-                              "pre": rng.choice([None, None, None, "mode", "both", "neither"])})
+                              # round 3 ("other"): a search in the other mode, with parameters of its
+                              # own, on the same finder before
+                              "pre": rng.choice([None, None, None, "mode", "both", "neither", "other", "other"])})
             # the caller's dictionary is used at least twice
             steps[0]["params"] = "same"
             steps[-1]["params"] = rng.choice(["same", "same", "inner"])
@@ -415,18 +502,76 @@ class C20(fw.Check):
             cases.append(case)
         return cases
 
-    SET_KINDS = ["empty", "twice", "clone", "deep", "many", "unnamed", "link", "numeric", "plain", "plain"]
+    SET_KINDS = ["empty", "twice", "clone", "deep", "many", "unnamed", "link", "numeric", "plain", "plain",
+                 # round 3
+                 "typed", "edited", "loaded", "escape", "wide", "dtypes"]
+
+    @staticmethod
+    def all_secs(specs):
+        out = []
+
+        def sec(s):
+            out.append(s)
+            for c in s["subs"]:
+                sec(c)
+        for d in specs:
+            for s in d["secs"]:
+                sec(s)
+        return out
+
+    def gen_edits(self, rng, docs):
+        """what the caller does to the documents between two conversions of one writer
+        -> (edits, [(kind, attribute, new text)])"""
+        edits, touched = [], []
+        attr_of = {"retype": "type", "rename": "name", "redefine": "definition", "del_sec": "name"}
+        for _ in range(rng.choice([1, 2, 3])):
+            di = rng.randrange(len(docs))
+            op = rng.choice(["retype", "retype", "rename", "redefine", "add_sec", "del_sec", "del_prop", "author"])
+            e = {"op": op, "doc": di, "sec": rng.randrange(3)}
+            secs = docs[di]["secs"]
+            if op in attr_of and secs:
+                # what the Section said before the edit (the first export said so; the export that is
+                # searched does not any more, unless another Section says the same)
+                before = secs[e["sec"] % len(secs)].get(attr_of[op])
+                if before:
+                    touched.append(("Sec", attr_of[op], before))
+            if op == "retype":
+                e["v"] = rng.choice(TYPES + ["my/type"])
+                touched.append(("Sec", "type", e["v"]))
+            elif op == "rename":
+                e["v"] = rng.choice(NAMES + ["c", "10"])
+                touched.append(("Sec", "name", e["v"]))
+            elif op == "redefine":
+                e["v"] = rng.choice(TEXTS)
+                touched.append(("Sec", "definition", e["v"]))
+            elif op == "author":
+                e["v"] = rng.choice(["me", "you", "D. N. Adams"])
+                if docs[di].get("author"):
+                    touched.append(("Doc", "author", docs[di]["author"]))
+                touched.append(("Doc", "author", e["v"]))
+            elif op == "add_sec":
+                e["spec"] = gen_sec(rng, rng.choice(["new", "c"]), [])
+                touched.append(("Sec", "name", e["spec"]["name"]))
+            edits.append(e)
+        rng.shuffle(touched)
+        return edits, touched
 
     def gen_sets(self, rng, n):
         """Document sets the Lean model is not asked about (oracle only): no document at all, one document
         twice, a keep_id clone next to its original, long chains of sub-sections, many documents, objects
-        without a name (the id serves as name), linked Sections (merged view), names that are numbers."""
+        without a name (the id serves as name), linked Sections (merged view), names that are numbers.
+        Round 3: every Section of a type that the default / a custom sub-class table names (typed); the
+        documents edited between two conversions of the same writer (edited); documents that were saved to a
+        file and loaded again (loaded); a value with a SPARQL code point escape in it (escape)."""
         cases = []
         for i in range(n):
             kind = self.SET_KINDS[i % len(self.SET_KINDS)]
             docs = gen_docs(rng)
             post = []
             extra = []
+            edits = None
+            wanted = []        # (kind, attribute, text): ask for it, more often than not
+            force_custom = False
             if kind == "empty":
                 docs = []
             elif kind == "twice":
@@ -472,16 +617,88 @@ class C20(fw.Check):
                     d["version"] = rng.choice(["1", "10", "1.0"])
                     for s in d["secs"]:
                         renumber(s)
-            case = {"stream": "sets", "kind": kind, "docs": docs, "post": post, "opts": gen_opts(rng),
+            elif kind == "typed":
+                if not self.all_secs(docs):
+                    docs[0]["secs"].append(gen_sec(rng, "a", []))
+                # (None: a Section without a type - it carries none, the tables have nothing to say about it)
+                pool = rng.sample(TABLE_TYPES + ["my/type", "t1", None], 3)
+                for s in self.all_secs(docs):
+                    s["type"] = rng.choice(pool)
+                force_custom = rng.random() < 0.7
+                s = rng.choice(self.all_secs(docs))
+                wanted.append(("Sec", "type" if s["type"] and rng.random() < 0.7 else "name", None, s))
+            elif kind == "wide":
+                # ten and more children: the tenth and later ones, names that differ in the second digit
+                many = rng.choice([10, 11, 12])
+                docs = docs[:1]
+                docs[0]["secs"] = [gen_sec(rng, "s%d" % (n + 1), []) for n in range(many)]
+                first = docs[0]["secs"][rng.randrange(many)]
+                first["props"] = [{"name": "p%d" % (n + 1), "dtype": None, "values": [], "unit": pick(rng, UNITS, 0.5),
+                                   "uncertainty": None, "definition": None, "reference": None,
+                                   "value_origin": None} for n in range(rng.choice([10, 11]))]
+                wanted.append(("Sec", "name", rng.choice(["s1", "s10", "s%d" % many, "s13"])))
+                wanted.append(("Prop", "name", rng.choice(["p1", "p10", "p11", "p12"])))
+            elif kind == "dtypes":
+                if not self.all_secs(docs):
+                    docs[0]["secs"].append(gen_sec(rng, "a", []))
+                kinds = {"boolean": [True, False], "date": [{"d": "2020-01-02"}], "time": [{"t": "12:00:00"}],
+                         "datetime": [{"dt": "2020-01-02T12:00:00"}], "text": ["x\ny"], "url": ["http://a.b/c"],
+                         "person": ["D. N. Adams"], "2-tuple": ["(1;2)"], "string": []}
+                for n, sec in enumerate(self.all_secs(docs)):
+                    dtype = rng.choice(sorted(kinds))
+                    sec["props"] = sec["props"][:2] + [
+                        {"name": "q%d" % n, "dtype": dtype, "values": kinds[dtype], "unit": None, "uncertainty": None,
+                         "definition": None, "reference": None, "value_origin": None}]
+                    if rng.random() < 0.5:
+                        wanted.append(("Prop", "dtype", dtype))
+                if not wanted:
+                    wanted.append(("Prop", "dtype", rng.choice(sorted(kinds))))
+            elif kind == "edited":
+                edits, touched = self.gen_edits(rng, docs)
+                wanted += [t for t in touched if rng.random() < 0.8]
+            elif kind == "loaded":
+                post.append({"op": "load", "fmt": rng.choice(["XML", "XML", "JSON", "YAML"])})
+            elif kind == "escape":
+                if not self.all_secs(docs):
+                    docs[0]["secs"].append(gen_sec(rng, "a", []))
+                s = rng.choice(self.all_secs(docs))
+                text = rng.choice(ESCAPE_TEXTS)
+                where = rng.choice(["sec", "sec", "prop", "doc"])
+                if where == "prop" and s["props"]:
+                    s["props"][0]["reference"] = text
+                    wanted.append(("Prop", "reference", text))
+                elif where == "doc":
+                    docs[0]["author"] = text
+                    wanted.append(("Doc", "author", text))
+                else:
+                    s["definition"] = text
+                    wanted.append(("Sec", "definition", text))
+            wanted = [(w[0], w[1], w[3][w[1]]) if len(w) == 4 else w for w in wanted]
+            opts = gen_opts(rng, docs)
+            if force_custom:
+                opts["writer"] = gen_writer(rng, docs, force_custom=True)
+            case = {"stream": "sets", "kind": kind, "docs": docs, "post": post, "opts": opts,
                     "how": rng.choice(["dict", "str"])}
+            if edits:
+                case["edits"] = edits
             if i % 3 == 2:
                 case["mode"] = "fuzzy"
                 case["attrs"], case["search"] = self.gen_fuzzy(rng, docs)
+                if wanted:
+                    k, a, v = wanted[0]
+                    case["attrs"] = {k: [a]} if kind == "escape" else dict(case["attrs"], **{k: [a]})
+                    while sum(len(x) for x in case["attrs"].values()) > 3:
+                        other = [x for x in sorted(case["attrs"]) if x != k][0]
+                        del case["attrs"][other]
+                    case["search"][0] = v
             else:
                 case["mode"] = "match"
                 pairs = self.small_pairs(rng, docs, 3)
                 if extra:
                     pairs = extra[:rng.choice([1, 2])] + pairs[:2]
+                if wanted:
+                    pairs = [{"k": k, "a": a, "v": v, "vs": []} for k, a, v in wanted[:2]] + \
+                        [p for p in pairs if (p["k"], p["a"]) not in [(w[0], w[1]) for w in wanted[:2]]][:2]
                 case["pairs"] = pairs
             cases.append(case)
         return cases
@@ -499,7 +716,14 @@ class C20(fw.Check):
                               "parser": rng.choice(["new", "new", "same"]), "repeat": rng.random() < 0.3,
                               "opts": {"shape": opts["shape"], "korder": opts["korder"], "sorder": opts["sorder"],
                                        "words": opts["words"]}})
-            cases.append({"stream": "creator", "docs": docs, "steps": steps})
+            case = {"stream": "creator", "docs": docs, "steps": steps, "writer": gen_writer(rng, docs)}
+            if rng.random() < 0.08 and self.all_secs(docs):
+                # a value with a SPARQL code point escape (open finding codepoint_escape_in_value)
+                text = rng.choice(ESCAPE_TEXTS)
+                rng.choice(self.all_secs(docs))["definition"] = text
+                steps[-1]["pairs"] = [{"k": "Sec", "a": "definition", "v": text, "vs": []}] + \
+                    [p for p in steps[-1]["pairs"] if (p["k"], p["a"]) != ("Sec", "definition")][:2]
+            cases.append(case)
         return cases
 
     def generate(self, tier, rng):
@@ -510,14 +734,14 @@ class C20(fw.Check):
             if i % 4 == 3:
                 attrs, search = self.gen_fuzzy(rng, docs, risky=(i % 16 == 7))
                 cases.append({"stream": "fuzzy", "docs": docs, "attrs": attrs, "search": search,
-                              "how": rng.choice(["dict", "str"]), "opts": gen_opts(rng)})
+                              "how": rng.choice(["dict", "str"]), "opts": gen_opts(rng, docs)})
             else:
                 pairs = self.gen_pairs(rng, docs, i % 8 == 1)
                 rng.shuffle(pairs)
                 cases.append({"stream": "match", "docs": docs, "pairs": pairs,
-                              "how": rng.choice(["dict", "str"]), "opts": gen_opts(rng)})
+                              "how": rng.choice(["dict", "str"]), "opts": gen_opts(rng, docs)})
         cases += self.gen_reuse(rng, 44 if tier == "quick" else 400)
-        cases += self.gen_sets(rng, 40 if tier == "quick" else 500)
+        cases += self.gen_sets(rng, 64 if tier == "quick" else 800)
         cases += self.gen_creator(rng, 40 if tier == "quick" else 500)
         m = 150 if tier == "quick" else 3000
         terms = [["i", "ex:a"], ["i", "ex:b"], ["i", "ex:c"], ["l", "x", ""], ["l", "y", ""],
@@ -641,28 +865,129 @@ class C20(fw.Check):
                     docs[op["doc"]].sections[op["sec"]].link = op["to"]
                 except Exception:
                     docs[op["doc"]] = c10.build_doc(specs[op["doc"]])
+            elif op["op"] == "load":
+                # the documents as they come back from a file. (What a file format cannot carry or refuses
+                # is the business of the file properties: such a document stays the object it was.)
+                import odml
+                tmp = tempfile.mkdtemp(prefix="c20_")
+                try:
+                    for i, doc in enumerate(list(docs)):
+                        try:
+                            path = os.path.join(tmp, "d%d.%s" % (i, op["fmt"].lower()))
+                            odml.save(doc, path, op["fmt"])
+                            docs[i] = odml.load(path, op["fmt"])
+                        except Exception:
+                            docs[i] = doc
+                finally:
+                    shutil.rmtree(tmp, ignore_errors=True)
         return docs
 
     @staticmethod
-    def make_graph(docs, specs, via="graph", linked=False):
+    def apply_edits(docs, edits):
+        """the caller changes the documents (between two conversions of one writer); an edit the library
+        refuses (a sibling of that name exists, ...) just does not happen"""
+        for e in edits or ():
+            try:
+                doc = docs[e["doc"] % len(docs)]
+                if e["op"] == "add_sec":
+                    c10.build_sec(e["spec"], doc)
+                    continue
+                if e["op"] == "author":
+                    doc.author = e["v"]
+                    continue
+                if not doc.sections:
+                    continue
+                sec = doc.sections[e["sec"] % len(doc.sections)]
+                if e["op"] == "retype":
+                    sec.type = e["v"]
+                elif e["op"] == "rename":
+                    sec.name = e["v"]
+                elif e["op"] == "redefine":
+                    sec.definition = e["v"]
+                elif e["op"] == "del_sec":
+                    doc.remove(sec)
+                elif e["op"] == "del_prop" and sec.properties:
+                    sec.remove(sec.properties[0])
+            except Exception:
+                pass
+
+    @staticmethod
+    def build_writer(docs, wspec=None, linked=False):
+        """A writer that exports the documents WITHOUT Section sub-classing, set up in one of the ways a
+        caller has (see gen_writer). Nothing of it changes what the export has to say about Sections: with
+        sub-classing off every Section is an odml:Section, whatever its type and whatever tables exist.
+        (Earlier conversions are left out for documents with linked Sections, see make_graph.)"""
+        from odml.tools.rdf_converter import RDFWriter
+        w = wspec or {}
+        custom = None if w.get("custom") is None else dict((k, v) for k, v in w["custom"])
+        arg = docs[0] if w.get("single") and len(docs) == 1 else docs
+        how = w.get("how", "kw")
+        if linked and how in ("used", "flip"):
+            how = "toggle"
+        if w.get("pre") and not linked:
+            # someone else exports the same documents with sub-classing (and a table for their types) before
+            table = dict(custom or {})
+            table.setdefault("t1", "Custom")
+            RDFWriter(arg, custom_subclasses=table).convert_to_rdf()
+        if how == "pos":
+            writer = RDFWriter(arg, False, custom)
+        elif how == "toggle":
+            writer = RDFWriter(arg, custom_subclasses=custom)
+            writer.rdf_subclassing = False
+        elif how == "used":
+            writer = RDFWriter(arg, custom_subclasses=custom)
+            writer.convert_to_rdf()
+            writer.rdf_subclassing = False
+        elif how == "flip":
+            writer = RDFWriter(arg, rdf_subclassing=False, custom_subclasses=custom)
+            writer.rdf_subclassing = True
+            writer.convert_to_rdf()
+            writer.rdf_subclassing = False
+        elif custom is None:
+            writer = RDFWriter(arg, rdf_subclassing=False)
+        else:
+            writer = RDFWriter(arg, rdf_subclassing=False, custom_subclasses=custom)
+        return writer
+
+    @classmethod
+    def make_graph(cls, docs, specs, via="graph", linked=False, wspec=None, edits=None):
         """the RDF export of the set: the graph the writer hands out, the graph of a writer that is asked
         twice, or the exported text (turtle, RDF/XML, n3) read back.
         (A writer asked twice keeps the triples of its first conversion; with linked Sections every
         conversion resolves the links anew, under new ids, so that graph describes objects the documents no
         longer have. What the export contains is property C10's business: no second conversion there.)"""
         import rdflib
-        from odml.tools.rdf_converter import RDFWriter
-        writer = RDFWriter(docs, rdf_subclassing=False)
+        writer = cls.build_writer(docs, wspec, linked)
+        if edits:
+            # one writer, two conversions, the documents edited in between: the second export is the export
+            # of the documents as they are now
+            writer.convert_to_rdf()
+            cls.apply_edits(docs, edits)
         if via == "twice" and not linked:
             writer.convert_to_rdf()
             return writer.convert_to_rdf()
-        if via in ("turtle", "n3") or (via == "xml" and xml_safe(specs)):
+        if via in ("turtle", "n3", "nt", "json-ld") or (via == "xml" and xml_safe(specs)):
             text = writer.get_rdf_str(via)
             if isinstance(text, bytes):
                 text = text.decode("utf-8")
             graph = rdflib.Graph()
             graph.parse(data=text, format=via)
             return graph
+        if via == "str":
+            graph = rdflib.Graph()
+            graph.parse(data=str(writer), format="turtle")
+            return graph
+        if via in ("file", "file_xml", "file_nt"):
+            fmt = {"file": "turtle", "file_xml": "xml" if xml_safe(specs) else "turtle", "file_nt": "nt"}[via]
+            tmp = tempfile.mkdtemp(prefix="c20_")
+            try:
+                writer.write_file(os.path.join(tmp, "export"), fmt)
+                graph = rdflib.Graph()
+                for name in sorted(os.listdir(tmp)):        # the writer appends the extension of the format
+                    graph.parse(os.path.join(tmp, name), format=fmt)
+                return graph
+            finally:
+                shutil.rmtree(tmp, ignore_errors=True)
         return writer.convert_to_rdf()
 
     @staticmethod
@@ -671,6 +996,10 @@ class C20(fw.Check):
         from odml.rdf.fuzzy_finder import FuzzyFinder
         if finder is not None:
             return finder, finder.find(mode=mode, graph=graph, q_str=q_str, q_params=q_params)
+        if gpass == "nomode" and mode == "fuzzy":
+            # fuzzy is the documented default of `mode`
+            ff = FuzzyFinder()
+            return ff, ff.find(graph=graph, q_str=q_str, q_params=q_params)
         if gpass == "ctor":
             ff = FuzzyFinder(graph=graph)
             return ff, ff.find(mode=mode, q_str=q_str, q_params=q_params)
@@ -726,7 +1055,8 @@ class C20(fw.Check):
         docs = self.build_set(case["docs"], case.get("post"))
         snap = [c10.snap_doc(d) for d in docs]
         graph = self.make_graph(docs, case["docs"], opts.get("via", "graph"),
-                                linked=any(op["op"] == "link" for op in case.get("post") or ()))
+                                linked=any(op["op"] == "link" for op in case.get("post") or ()),
+                                wspec=opts.get("writer"), edits=case.get("edits"))
         obs = {"docs": snap}
         mode, pairs, plain, q_str, str_ok = self.query_of(case, docs)
         params = self.params_of(mode, pairs, plain, opts)
@@ -769,7 +1099,8 @@ class C20(fw.Check):
         warnings.simplefilter("ignore")
         opts = case.get("opts") or {}
         docsets = [self.build_set(specs) for specs in case["sets"]]
-        graphs = [RDFWriter(ds, rdf_subclassing=False).convert_to_rdf() for ds in docsets]
+        writers = case.get("writers") or [None] * len(docsets)
+        graphs = [self.build_writer(ds, w).convert_to_rdf() for ds, w in zip(docsets, writers)]
         mode, pairs, plain, q_str, str_ok = self.query_of(case, docsets[0])
         shared = self.params_of(mode, pairs, plain, opts)       # the dictionary the caller keeps
         obs = {"sets": [[c10.snap_doc(d) for d in ds] for ds in docsets], "pairs": pairs, "steps": []}
@@ -807,6 +1138,11 @@ class C20(fw.Check):
                     ff.find(mode=mode, graph=graph, q_str=q_str or "x", q_params=obj)
                 elif step.get("pre") == "neither":
                     ff.find(mode=mode, graph=graph)
+                elif step.get("pre") == "other" and mode == "match":
+                    ff.find(mode="fuzzy", graph=graph, q_params={"Doc": ["author"], "Sec": ["name", "type"],
+                                                                   "Search": ["a", "me"]})
+                elif step.get("pre") == "other":
+                    ff.find(mode="match", graph=graph, q_str="doc(author:me) sec(name:a) prop(name:b)")
             except Exception:
                 pass
             try:
@@ -829,7 +1165,7 @@ class C20(fw.Check):
         from odml.tools.rdf_converter import RDFWriter
         warnings.simplefilter("ignore")
         docs = self.build_set(case["docs"])
-        graph = RDFWriter(docs, rdf_subclassing=False).convert_to_rdf()
+        graph = self.build_writer(docs, case.get("writer")).convert_to_rdf()
         obs = {"steps": []}
         shared_parser = None
 
@@ -1135,7 +1471,9 @@ class C20(fw.Check):
         # ones (finder_keeps_first_graph, empty_graph_refused, parser_keeps_earlier_kinds,
         # string_form_line_feed) have no branch: a regression is a VIOLATION.
         st = case.get("stream")
-        if st in ("reuse", "creator", "sets"):
+        if st in ("creator", "sets"):
+            return self.escape_key(case, obs, failure)
+        if st == "reuse":
             return None
         m = re.match(r"combination (.*): missing (\d+) rows, (\d+) rows that do not carry the values$", failure)
         if m and m.group(3) == "0":
@@ -1148,6 +1486,29 @@ class C20(fw.Check):
                 return "typed_literal_never_matches"
             if any(a in ("id", "repository") for _k, a in attrs):
                 return "id_repository_never_match"
+        return None
+
+    @staticmethod
+    def escape_key(case, obs, failure):
+        """codepoint_escape_in_value, narrowly: only a failure of a search / a combination / a query that
+        asks for a value with a SPARQL code point escape (backslash, u or U, hex digits) in it - the search
+        raised, or its rows are not those of the value that was given"""
+        import json
+        has = lambda pairs: any(ESCAPE_RE.search(p["v"] if isinstance(p, dict) else p[2]) for p in pairs)
+        try:
+            if case.get("stream") == "sets":
+                if failure.startswith("find raised "):
+                    return "codepoint_escape_in_value" if has(obs.get("pairs") or []) else None
+                m = re.match(r"combination (.*): missing (\d+) rows, (\d+) rows that do not carry the values$",
+                             failure, re.S)
+                if m and has(json.loads(m.group(1))):
+                    return "codepoint_escape_in_value"
+                return None
+            m = re.match(r"query (\d+)( \(\w+\))?: (get_query raised |missing \d+ rows, )", failure)
+            if m and has(obs["steps"][int(m.group(1))]["pairs"]):
+                return "codepoint_escape_in_value"
+        except Exception:
+            pass
         return None
 
     def tag(self, case, obs):
